@@ -64,6 +64,7 @@ def ops_term(row):
 
 import concurrent.futures as cf
 import re
+import time
 
 
 class Batch:
@@ -371,6 +372,36 @@ def conc_report(ctx, batch, rows):
                        "theorems": ["C04_interval_member_receives_once", "C04_interval_nonmember_never", "C04_interval_at_most_once"]})
 
 
+def joinrace_gen(ctx, vh, batch):
+    rows = None
+    for attempt in range(3):
+        rc, log = ctx.vh(vh, ["rooms", "-mode", "joinrace", "-out", "%s/joinrace.jsonl" % ctx.work], timeout=300)
+        if rc == 0:
+            import json
+            rows = [json.loads(l) for l in open("%s/joinrace.jsonl" % ctx.work) if l.strip()]
+            break
+        if "environment:" not in log:
+            break
+    if rows is None:
+        ctx.violation("harness engine rooms/joinrace failed", {"kind": "correspondence-broken", "suite": "joinrace",
+                                                              "log": log[-3000:]}, no_input=True)
+        return None
+    batch.add("joinrace", ["((%s, %s, %s, %d%%nat) : jcase)" % (gbool(r["forced"]), gbool(r["rooms_ok"]), pl(r["rooms"]),
+                                                                r["socket_rooms"]) for r in rows],
+              ["joinrace_agree", "joinrace_oracle"])
+    return rows
+
+
+def joinrace_report(ctx, batch, rows):
+    for r in rows:
+        ctx.count(1, nontrivial_key=("joinrace", r["forced"]) if r["forced"] else None, dist="joinrace")
+    report(ctx, batch, "joinrace", "joinrace", rows, "joinrace_agree", "joinrace_oracle", ["C04_disconnected_in_no_room"],
+           lambda r: "real server: ServerSocket.Join(\"x9\") held inside the join closure (public Debugger hook, log line "
+                     "'Joining room(s)') while the socket is disconnected by Disconnect(false), then released: afterwards "
+                     "Adapter().SocketRooms(id) ok=%s rooms=%s, ServerSocket.Rooms() size %d - a disconnected socket is "
+                     "still in a room" % (r["rooms_ok"], r["rooms"], r["socket_rooms"]))
+
+
 def run(ctx):
     ctx.rule = ("table: every membership matrix of 3 sockets x 3 rooms x every (T,E) of room subsets (x store subsets); "
                 "non-trivial = (T,E) != (0,0) and the broadcast reached 1 or 2 of the 3 sockets (distinct (matrix,store,T,E)); "
@@ -386,10 +417,13 @@ def run(ctx):
     ctx.assumptions = ["Go map iteration: an entry present for the whole iteration is produced exactly once, an entry "
                        "removed before being reached is not produced",
                        "mapset.Set (deckarep/golang-set) behaves as a finite set"]
+    t0 = time.time()
     ctx.proofs(modules=["Adapter/BroadcastCheck", "Adapter/BroadcastLiveCheck"])
+    t1 = time.time()
     vh = ctx.go_build()
     if vh is None:
         return
+    t2 = time.time()
     batch = Batch(ctx)
     table = table_gen(ctx, vh, batch)
     hists = {}
@@ -400,7 +434,11 @@ def run(ctx):
     ops = ops_gen(ctx, vh, batch)
     conc = conc_gen(ctx, vh, batch)
     live = live_gen(ctx, vh, batch, "live", ["-seed", ctx.seed, "-n", 40 if ctx.quick else 600])
+    joinrace = joinrace_gen(ctx, vh, batch)
+    t3 = time.time()
     batch.run()
+    ctx.note("phase timings (s): proofs+audit %.1f, harness build %.1f, engines %.1f, kernel evaluation %.1f" % (
+        t1 - t0, t2 - t1, t3 - t2, time.time() - t3))
     if table is not None:
         table_report(ctx, batch, table)
     for mode, rows in hists.items():
@@ -412,3 +450,5 @@ def run(ctx):
         conc_report(ctx, batch, conc)
     if live is not None:
         live_report(ctx, vh, batch, live)
+    if joinrace is not None:
+        joinrace_report(ctx, batch, joinrace)
